@@ -697,6 +697,25 @@ theorem fastx_sniff_seek_source_eq_model (b : Nat) (r : Bytes) :
     Gen.SrcFastx.getKindSeek readExactAt seekCurOp (b :: r, 0) = Res.ok (sniffRes (b :: r), (b :: r, 0)) :=
   GenSrcFastx.getKindSeek_eq_model b r
 
+open RbV.Thm.GenSrcFastx (readExactOp chainOp eitherAfter) in
+/-- **`EitherRecords`, source text**: `kind()` on a fresh `EitherRecords` over a source holding `file` (translated `kind` →
+translated `initialize` → translated `get_kind` → `get_kind_detailed`) answers the verdict of `sniff` ("Data is empty" at end
+of input) and leaves the object holding the record iterator of **that** format (`fa` / `fq` = `fasta::` / `fastq::Reader::new(
+chain).records()`) over a chained reader that delivers the whole input again; a second `initialize` changes nothing. -/
+theorem fastx_either_kind_source_eq_model {α β : Type} (fa : Bytes → α) (fq : Bytes → β) (file : Bytes) :
+    Gen.SrcFastx.eitherKind readExactOp chainOp fa fq none (some file) =
+        Res.ok ((eitherAfter fa fq file).1, (eitherAfter fa fq file).2, none) ∧
+      (∀ recs : Option (α ⊕ β),
+        Gen.SrcFastx.eitherInitialize readExactOp chainOp fa fq recs none = Res.ok (.ok (), recs, none)) ∧
+      (∀ k, sniff file = some k →
+        (eitherAfter fa fq file).1 = .ok (GenSrcFastx.toKind k) ∧
+        (eitherAfter fa fq file).2 = some (match k with | .fasta => .inl (fa file) | .fastq => .inr (fq file))) := by
+  refine ⟨GenSrcFastx.eitherKind_eq_model fa fq file, GenSrcFastx.eitherInitialize_again fa fq, ?_⟩
+  intro k hk
+  cases file with
+  | nil => simp [sniff] at hk
+  | cons b r => cases k <;> simp [eitherAfter, hk, GenSrcFastx.toKind]
+
 open RbV.Thm.GenSrcFastx (readExactOp chainOp) in
 /-- **sniffer + FASTA reader, source text to source text**: on the translated writer's output for a non-empty list of valid
 text records the translated `get_kind` answers FASTA and hands back a reader over the same bytes; the translated `Records`
